@@ -31,6 +31,7 @@ use crate::bitsink::BitSink;
 use crate::bitsink::MemSink;
 use crate::constant::panic_msg;
 use crate::constant::qlpc::MAX_ORDER as MAX_LPC_ORDER;
+use crate::constant::rice::MAX_PARTITION_ORDER as MAX_RICE_PARTITION_ORDER;
 use crate::constant::MAX_CHANNELS;
 use crate::error::verify_range;
 use crate::error::verify_true;
@@ -473,6 +474,11 @@ impl StreamInfo {
         channels: usize,
         bits_per_sample: usize,
     ) -> Result<Self, VerifyError> {
+        // checked before the casts below, which would otherwise bring out-of-range values
+        // (e.g. 258 channels) into range.
+        verify_range!("sample_rate", sample_rate, ..=96_000)?;
+        verify_range!("channels", channels, 1..=MAX_CHANNELS)?;
+        verify_bps!("bits_per_sample", bits_per_sample)?;
         let ret = Self {
             min_block_size: u16::MAX,
             max_block_size: 0,
@@ -874,7 +880,9 @@ impl Frame {
             header.channel_assignment().channels() == subframes.len(),
             "must match to the channel specification in the header"
         )?;
-        Ok(Self::from_parts(header, subframes))
+        let ret = Self::from_parts(header, subframes);
+        ret.verify()?;
+        Ok(ret)
     }
 
     /// Constructs Frame from [`FrameHeader`] and [`SubFrame`]s.
@@ -1617,7 +1625,10 @@ impl FrameHeader {
         offset: FrameOffset,
     ) -> Result<Self, VerifyError> {
         verify_block_size!("block_size", block_size)?;
+        verify_range!("block_size", block_size, 1..)?;
         let block_size_spec = BlockSizeSpec::from_size(block_size as u16);
+        verify_range!("bits_per_sample", bits_per_sample, ..=(u8::MAX as usize))?;
+        verify_range!("sample_rate", sample_rate, ..=(u32::MAX as usize))?;
         let sample_size_spec =
             SampleSizeSpec::from_bits(bits_per_sample as u8).ok_or_else(|| {
                 VerifyError::new("bits_per_sample", "must be one of a supported value.")
@@ -1637,6 +1648,7 @@ impl FrameHeader {
             sample_rate_spec,
         );
         ret.set_frame_offset(offset);
+        ret.verify()?;
         Ok(ret)
     }
 
@@ -1801,6 +1813,28 @@ pub enum SubFrame {
     Lpc(Lpc),
 }
 
+impl SubFrame {
+    /// Returns the number of samples this subframe encodes.
+    pub(crate) fn block_size(&self) -> usize {
+        match self {
+            Self::Constant(c) => c.block_size(),
+            Self::Verbatim(c) => c.samples().len(),
+            Self::FixedLpc(c) => c.residual().block_size(),
+            Self::Lpc(c) => c.residual().block_size(),
+        }
+    }
+
+    /// Returns the bits-per-sample of this subframe.
+    pub(crate) fn bits_per_sample(&self) -> usize {
+        match self {
+            Self::Constant(c) => c.bits_per_sample(),
+            Self::Verbatim(c) => c.bits_per_sample(),
+            Self::FixedLpc(c) => c.bits_per_sample(),
+            Self::Lpc(c) => c.bits_per_sample(),
+        }
+    }
+}
+
 impl From<Constant> for SubFrame {
     fn from(c: Constant) -> Self {
         Self::Constant(c)
@@ -1940,7 +1974,9 @@ impl Verbatim {
         for v in samples {
             verify_sample_range!("samples", *v, bits_per_sample)?;
         }
-        Ok(Self::from_samples(samples, bits_per_sample as u8))
+        let ret = Self::from_samples(samples, bits_per_sample as u8);
+        ret.verify()?;
+        Ok(ret)
     }
 
     /// Constructs new `Verbatim`. (unverified version)
@@ -2015,6 +2051,7 @@ impl FixedLpc {
         let warm_up = heapless::Vec::from_slice(warm_up)
             .map_err(|()| VerifyError::new("warm_up", "must be shorter than (or equal to) 4"))?;
         let ret = Self::from_parts(warm_up, residual, bits_per_sample as u8);
+        ret.verify()?;
         Ok(ret)
     }
 
@@ -2112,6 +2149,11 @@ impl Lpc {
                 "must be shorter than (or equal to) `qlpc::MAX_ORDER`",
             )
         })?;
+        verify_true!(
+            "warm_up.len",
+            warm_up.len() == parameters.order(),
+            "must be identical with the LPC order"
+        )?;
         let ret = Self::from_parts(warm_up, parameters, residual, bits_per_sample as u8);
         ret.verify()?;
         Ok(ret)
@@ -2212,6 +2254,12 @@ impl QuantizedParameters {
         shift: i8,
         precision: usize,
     ) -> Result<Self, VerifyError> {
+        verify_range!("order", order, ..=MAX_LPC_ORDER)?;
+        verify_true!(
+            "coefs.len",
+            coefs.len() == order,
+            "must be identical with `order`"
+        )?;
         let ret = Self::from_parts(coefs, order, shift, precision);
         // `QuantizedParameter` doesn't have a child component, so calling
         // `verify` here is not redundant whereas it incurs redundant checks
@@ -2309,6 +2357,16 @@ impl Residual {
         remainders: &[u32],
     ) -> Result<Self, VerifyError> {
         // Some pre-construction verification
+        verify_range!(
+            "partition_order",
+            partition_order,
+            ..=MAX_RICE_PARTITION_ORDER
+        )?;
+        verify_true!(
+            "rice_params.len",
+            rice_params.len() == 1usize << partition_order,
+            "must be identical with the number of partitions"
+        )?;
         let ret = Self::from_parts(
             partition_order as u8,
             block_size,
